@@ -38,7 +38,7 @@ for _n in dir(_builtins):
     _c = getattr(_builtins, _n)
     if isinstance(_c, type) and issubclass(_c, BaseException) and _n not in SAFE:
         SAFE[_n] = _c  # the built-in exception classes are themselves
-PURE_STDLIB = {"re", "fnmatch", "string", "itertools", "functools", "collections", "math", "operator", "copy", "uuid", "ipaddress", "datetime", "base64", "typing"}
+PURE_STDLIB = {"re", "fnmatch", "string", "unicodedata", "itertools", "functools", "collections", "math", "operator", "copy", "uuid", "ipaddress", "datetime", "base64", "typing"}
 
 
 class _Continue(Exception):
